@@ -206,7 +206,7 @@ def run_harness(h, extra=None, tag=""):
                 {
                     "description": c.get("description", ""),
                     "function": c.get("function", ""),
-                    "location": "{file}:{line}".format(**c.get("location", {"file": "?", "line": "?"})),
+                    "location": "%s:%s" % ((c.get("location") or {}).get("file", "?"), (c.get("location") or {}).get("line", "?")),
                     "category": cat,
                 }
             )
@@ -471,7 +471,15 @@ def main():
         futs = {ex.submit(run_harness, h): h for h in order}
         for fu in cf.as_completed(futs):
             h = futs[fu]
-            r = fu.result()
+            try:
+                r = fu.result()
+            except Exception as e:  # noqa: a driver bug must never look like a pass
+                import traceback
+
+                traceback.print_exc()
+                r = {"name": h["name"], "wall_s": 0.0, "rc": -1, "timed_out": False, "status": "undecided", "failed_checks": [],
+                     "covers": {"satisfied": 0, "total": 0, "unsat": []}, "stats": {}, "n_checks": 0, "n_passed": 0, "log": "",
+                     "reason": "driver error: %r" % (e,)}
             results[h["name"]] = r
             s = r["stats"]
             log(
